@@ -17,12 +17,12 @@ does not return, so every path of the C function is one `if â€¦ then â€¦ else â€
 """
 import json, os, re, subprocess, sys
 
-LIBM = {"exp": "Num.exp", "log": "Num.log", "pow": "Num.pow", "sqrt": "Num.sqrt", "floor": "Num.floor",
+LIBM = {"exp": "Num.exp", "log": "Num.log", "log1p": "Num.log1p", "expm1": "Num.expm1", "pow": "Num.pow", "sqrt": "Num.sqrt", "floor": "Num.floor",
         "fabs": "Num.fabs", "erfc": "Num.erfc", "esl_stats_erfc": "Num.erfc"}
 LEAN_KEYWORDS = {"at", "in", "from", "end", "then", "do", "open", "fun", "let", "have", "show", "where", "with", "if",
                  "else", "by", "Type", "Prop", "Sort", "def", "theorem", "instance", "class", "structure", "match",
                  "mut", "for", "return", "import", "namespace", "section", "variable", "universe", "using", "calc",
-                 "u", "Î±", "inf", "exp", "log", "pow", "sqrt", "floor", "fabs", "erfc"}
+                 "u", "Î±", "inf", "exp", "log", "log1p", "expm1", "pow", "sqrt", "floor", "fabs", "erfc"}
 CMP = {"<", "<=", ">", ">=", "==", "!="}
 
 
